@@ -9,6 +9,7 @@ def c04Op (args : List String) : String :=
   | "bb" :: _ => "proc=1 alive=1 by=ok"
   | "tool" :: _ => "exit=clean"
   | "fd" :: _ => "proc=1 alive=1"
+  | "fdviso" :: _ => "proc=1 served=full"
   | "mem" :: _ => "proc=1 mem=ok served=true"
   | _ => "bad-op"
 
